@@ -199,6 +199,10 @@ def case_transformations(ctx, rseed, maxchain):
                         # the owner of the intermediate formula annotates it before going on
                         F.header[r.choice(["note %d" % steps, "command line", "checked", "transformation note"])] = "looked at after step %d" % steps
                         ctx.count("annotated_between_steps")
+                        if r.random() < 0.4:
+                            # ... or blanks the text of an earlier step (the entry stays, its number stays taken)
+                            F.header["transformation %d" % r.randint(1, steps)] = r.choice(["", None, 0, " "])
+                            ctx.count("earlier_step_text_blanked")
                 if ok and F is not F0:
                     # probe the last link of the chain: its input is the previous formula
                     pass
@@ -421,7 +425,13 @@ def case_lists(ctx, rseed):
     run("Shuffle(explicit lists)", g.Shuffle, F, [1, -1, 1, -1], [2, 1, 4, 3], list(range(len(F) - 1, -1, -1)))
 
 
+def _extra_workload(tier, seed):
+    for i in range(2 if tier == "quick" else 6):
+        yield "big_inputs", {"rseed": seed * 10 + i}
+
+
 def workload(tier, seed):
+    yield from _extra_workload(tier, seed)
     q = tier == "quick"
     for i in range(4 if q else 200):
         yield "transformations", {"rseed": seed * 100 + i, "maxchain": 4}
@@ -462,6 +472,47 @@ def case_long_chains(ctx, rseed):
         ctx.count("chains")
         ctx.count("long_chains")
         ctx.judged(("long-chain", tuple(names)), nontrivial=True, sample={"chain_length": len(names), "last_header_keys": list(T.header.keys())[-3:]})
+
+
+def case_big_inputs(ctx, rseed):
+    """Transformations of formulas with 9000-25000 clauses (bulk paths may begin at such sizes): the input stays as it
+    was, and editing the result afterwards -- its clause lists included -- does not show in the input (and vice versa)."""
+    import cnfgen as g
+    from cnfgen.formula.cnf import CNF
+    r = ctx.rng("c19big", rseed)
+    for M in (9000, 9999, 10000, 10001, 16384, 25000)[(rseed % 2)::2]:
+        N = 50
+        F = CNF()
+        F.update_variable_number(N)
+        F.add_clauses_from([[(i % N) + 1, -(((i * 7 + 1) % N) + 1)] if i % 3 else [((i * 11) % N) + 1] for i in range(M)], check=False)
+        steps = [("Shuffle[fixed,fixed,shuffle]", lambda X: g.Shuffle(X, "fixed", "fixed", "shuffle")),
+                 ("Shuffle[fixed,fixed,fixed]", lambda X: g.Shuffle(X, "fixed", "fixed", "fixed")),
+                 ("Shuffle[fixed,shuffle,fixed]", lambda X: g.Shuffle(X, "fixed", "shuffle", "fixed")),
+                 ("Shuffle", lambda X: g.Shuffle(X)), ("FlipPolarity", lambda X: g.FlipPolarity(X)),
+                 ("OrSubstitution[1]", lambda X: g.OrSubstitution(X, 1)), ("XorSubstitution[1]", lambda X: g.XorSubstitution(X, 1))]
+        for label, fn in steps:
+            hb = [(k, str(v)) for k, v in F.header.items()]
+            random.seed(r.randint(0, 10 ** 6))
+            st, T = checked_call(ctx, label + " on %d clauses" % M, fn, F)
+            ctx.count("transformations_called")
+            ctx.count("big_inputs")
+            if st == "exc":
+                ctx.violation("%s:raises:%s" % (label, type(T).__name__), "%s on %d clauses raised %r" % (label, M, T))
+                continue
+            header_check(ctx, label, hb, T, 0)
+            aliasing_probe(ctx, label + " on %d clauses" % M, F, T)
+            # the other direction: the owner edits a clause list of the input in place
+            before = [list(c) for c in T][:50], len(T), T.number_of_variables()
+            try:
+                F._clauses[0].append(F._clauses[0][0])
+                F._clauses[-1].append(-1)
+            except Exception:       # noqa: BLE001
+                pass
+            if ([list(c) for c in T][:50], len(T), T.number_of_variables()) != before:
+                ctx.violation("%s:result-aliases-input" % label, "%s on %d clauses: editing a clause list of the input changed the result" % (label, M))
+            F._clauses[0].pop()
+            F._clauses[-1].pop()
+            ctx.judged(("big-input", label, M), nontrivial=True, sample={"transformation": label, "clauses": M})
 
 
 def case_nx_attributes(ctx, rseed):
